@@ -49,7 +49,7 @@ def seeded_table():
             d += 1
         lines.append('| `%s` %s | %s | %s | %s | %s |' % (m['name'], m.get('what_changed', '').replace('|', '/')[:120], m['breaks_property'],
                                                       m.get('needs_to_manifest', '').replace('|', '/')[:150], 'yes' if m.get('confirmed') else 'NO',
-                                                      det or '**not detected**'))
+                                                      det or ('not detected - ' + m.get('note', '')[:160] if m.get('note') else '**not detected**')))
     lines.append('')
     lines.append('%d independently written changes, %d detected.' % (n, d))
     return '\n'.join(lines)
